@@ -58,6 +58,12 @@ def loaders(path):
             ("load_catalog_forecast", lambda: [c for c in csep.load_catalog_forecast(path)]))
 
 
+def as_path(case, path):
+    """file names are accepted as str and as pathlib.Path"""
+    import pathlib
+    return pathlib.Path(path) if case.get("pathlib") else path
+
+
 def check_case(ctx, case):
     cats = build(case)
     n = len(cats)
@@ -81,17 +87,17 @@ def check_case(ctx, case):
             groups[a], groups[a + 1] = groups[a + 1], groups[a]
             with open(path, "w", newline="") as f:
                 f.write("".join(head + [body[i] for g in groups for i in g]))
-            for name, f in loaders(path):
+            for name, f in loaders(as_path(case, path)):
                 o = call(f)
                 if o.ok:
                     ctx.violation("decreasing_ids_accepted:" + name, {"n_loaded": len(o.value)})
                 elif not isinstance(o.exc, ValueError):
                     ctx.unexpected(o, "negative:" + name)
             return
-        for name, f in loaders(path):
+        for name, f in loaders(as_path(case, path)):
             o = call(f)
             if not o.ok:
-                ctx.unexpected(o, name)
+                ctx.unexpected(o, name + (":pathlib" if case.get("pathlib") else ""))
                 continue
             got = o.value
             if len(got) != n:
@@ -162,7 +168,7 @@ def make_long_cases(max_n):
                 cats.append(s)
         return draw_tz(draw, {"cats": cats, "enc": enc, "header": draw(st.booleans()), "frac": draw(st.booleans()),
                 "timefmt": draw(st.sampled_from(["auto", "us", "ms"])), "eol": draw(st.sampled_from(["\n", "\r\n"])), "final_newline": draw(st.booleans()),
-                **({"swap": draw(st.integers(0, 50))} if draw(st.integers(0, 5)) == 0 else {})})
+                **({"swap": draw(st.integers(0, 50))} if draw(st.integers(0, 5)) == 0 else {}), **({"pathlib": True} if draw(st.integers(0, 3)) == 0 else {})})
     return long_cases()
 
 
